@@ -40,16 +40,63 @@ def return_expr(f: FuncInfo) -> ast.expr:
     return rets[0].value  # type: ignore[return-value]
 
 
+def _returns_as_expr(f: FuncInfo) -> ast.expr:
+    """A predicate written as straight-line assignments, `if` statements and several `return`s, as ONE expression: locals substituted, every `if` a conditional
+    expression (a boolean connective when one branch is a constant) - evaluation order is that of the statements."""
+    from ..load import clone
+
+    def subst(e: ast.expr, env: dict[str, ast.expr]) -> ast.expr:
+        class S(ast.NodeTransformer):
+            def visit_Name(self, n: ast.Name) -> ast.AST:
+                return clone(env[n.id]) if isinstance(n.ctx, ast.Load) and n.id in env else n
+        return S().visit(clone(e))
+
+    def conv(stmts: list[ast.stmt], env: dict[str, ast.expr]) -> ast.expr:
+        env = dict(env)
+        for i, st in enumerate(stmts):
+            if isinstance(st, ast.Expr) and isinstance(st.value, ast.Constant) or isinstance(st, ast.Pass):
+                continue
+            if isinstance(st, ast.Assign) and len(st.targets) == 1 and isinstance(st.targets[0], ast.Name):
+                env[st.targets[0].id] = subst(st.value, env)
+                continue
+            if isinstance(st, ast.AnnAssign) and isinstance(st.target, ast.Name) and st.value is not None:
+                env[st.target.id] = subst(st.value, env)
+                continue
+            if isinstance(st, ast.Return) and st.value is not None:
+                return subst(st.value, env)
+            if isinstance(st, ast.If):
+                rest = stmts[i + 1:]
+                t = subst(st.test, env)
+                a, b = conv(list(st.body) + rest, env), conv(list(st.orelse) + rest, env)
+                ca = a.value if isinstance(a, ast.Constant) and isinstance(a.value, bool) else None
+                cb = b.value if isinstance(b, ast.Constant) and isinstance(b.value, bool) else None
+                if ca is False:
+                    return ast.BoolOp(op=ast.And(), values=[ast.UnaryOp(op=ast.Not(), operand=t), b])
+                if cb is True:
+                    return ast.BoolOp(op=ast.Or(), values=[ast.UnaryOp(op=ast.Not(), operand=t), a])
+                if ca is True:
+                    return ast.BoolOp(op=ast.Or(), values=[t, b])
+                if cb is False:
+                    return ast.BoolOp(op=ast.And(), values=[t, a])
+                return ast.IfExp(test=t, body=a, orelse=b)
+            raise AnalysisError(f"{f.qual}: predicate body contains `{ast.unparse(st)[:60]}` - cannot be read as one expression")
+        raise AnalysisError(f"{f.qual}: a path through the predicate ends without a return value")
+    e = conv(list(f.node.body), {})
+    ast.fix_missing_locations(ast.Expression(body=e))
+    return e
+
+
 def expanded_return(ctx: Context, f: FuncInfo, _depth: int = 3) -> ast.expr:
     """The single return expression of a predicate method with locals expanded and calls to other pure
     one-expression predicate methods of the same class (`self.is_closed()`) inlined."""
     rets = [n for n in own_nodes(f.node) if isinstance(n, ast.Return) and n.value is not None]
     if len(rets) != 1:
-        raise AnalysisError(f"{f.qual}: expected a single return expression, found {len(rets)}")
-    alts = ctx.prov.expand(rets[0].value, f, rets[0])
-    if len(alts) != 1:
-        raise AnalysisError(f"{f.qual}: return expression has {len(alts)} provenance alternatives")
-    expr = alts[0]
+        expr = _returns_as_expr(f)
+    else:
+        alts = ctx.prov.expand(rets[0].value, f, rets[0])
+        if len(alts) != 1:
+            raise AnalysisError(f"{f.qual}: return expression has {len(alts)} provenance alternatives")
+        expr = alts[0]
     if _depth <= 0 or f.cls is None:
         return expr
     cls = f.cls
@@ -61,7 +108,7 @@ def expanded_return(ctx: Context, f: FuncInfo, _depth: int = 3) -> ast.expr:
                 m = cls.find_method(n.func.attr)
                 if m is not None and m is not f and not m.is_async and len(m.param_names()) == 1:
                     body = [x for x in own_nodes(m.node) if isinstance(x, ast.Return) and x.value is not None]
-                    if len(body) == 1:
+                    if len(body) >= 1:
                         try:
                             return expanded_return(ctx, m, _depth - 1)
                         except AnalysisError:
@@ -369,6 +416,14 @@ def _r7(ctx: Context, tree: str, N: Names, h2c, rule: str = "C01.R7") -> None:
                 else:
                     detail += ": key is neither the routine's stream_id nor the event's own stream_id"
                 rep.ob(rule, fkey(tree, f, norm(p if p is not None else sub)[:70]), ok, where(f, sub), detail)
+    # `self._events.pop(k[, default])` is the call spelling of `del self._events[k]`
+    for f in h2c.methods.values():
+        for c in own_nodes(f.node):
+            if isinstance(c, ast.Call) and isinstance(c.func, ast.Attribute) and c.func.attr == "pop" and norm(c.func.value) == "self._events" and c.args:
+                n += 1
+                key = norm(c.args[0])
+                rep.ob(rule, fkey(tree, f, norm(c)[:70]), key == "stream_id" and "stream_id" in f.param_names(), where(f, c),
+                       f"`{ast.unparse(c)}` in {f.short}: " + ("removes the routine's own stream id" if key == "stream_id" else "removes an entry under a key that is not the routine's stream id"))
     rep.floor(rule, f"accesses to the HTTP/2 event table ({tree})", n, 3)
     stream_table_census(ctx, rule, tree, N, h2c)
     # reads of the table by .get(): key must be the routine's stream id
